@@ -588,9 +588,9 @@ theorem gen_zygo_layout (iw ih ib pw ph hdr ilen plen flen : Int) :
   · simp only [zygoIntOffset, modelIntOffset]
   · simp only [zygoIntCount]
   · simp only [zygoPhaseOffset, modelPhaseOffset]
-  · simp only [zygoPhaseOffset, zygoIntOffset, zygoIntCount] <;> ring
-  · simp only [zygoPhaseOffset, zygoExtOffset]
-  · simp only [zygoMissing, zygoPhaseOffset, zygoPhaseCount] <;> ring
+  · simp only [zygoPhaseOffset, zygoIntOffset, zygoIntCount, modelPhaseOffset, modelIntOffset] <;> ring
+  · simp only [zygoPhaseOffset, zygoExtOffset, modelPhaseOffset]
+  · simp only [zygoMissing, zygoPhaseOffset, zygoPhaseCount, modelMissing, modelPhaseOffset] <;> ring
   · simp only [zygoPhaseCount]
 
 /-- the header offsets the model reader uses for the layout fields are those of the generated table (big-endian, 2/2/2/4 bytes) -/
@@ -726,7 +726,7 @@ statement the correspondence checks on instrument-style files, here over the sou
 theorem zygo_declared_factors (n W S O : ℚ) (res : Nat) (R : Int) (h : (res, R) ∈ zygoPhaseRes) :
     Generated.C14.zygoReadValue n W S O R = Generated.C14.zygoReadValue n W 1 1 phaseRes1 * (S * O * phaseRes1 / R) := by
   have hR : (0 : ℚ) < (R : ℚ) := by exact_mod_cast phase_res_pos res R h
-  simp only [Generated.C14.zygoReadValue, phaseRes1]
+  simp only [Generated.C14.zygoReadValue, Model.C14.zygoReadValue, phaseRes1]
   push_cast
   field_simp
 
@@ -739,9 +739,9 @@ theorem zygo_quant_error_any_resolution (x W S O : ℚ) (res : Nat) (R : Int) (h
       < Generated.C14.zygoReadValue 1 W S O R := by
   have hR : (0 : ℚ) < (R : ℚ) := by exact_mod_cast phase_res_pos res R h
   have hq : 0 < Generated.C14.zygoReadValue 1 W S O R := by
-    simp only [Generated.C14.zygoReadValue]; positivity
+    simp only [Generated.C14.zygoReadValue, Model.C14.zygoReadValue]; positivity
   have e : ∀ n : ℚ, Generated.C14.zygoReadValue n W S O R = Generated.C14.zygoReadValue 1 W S O R * n := by
-    intro n; simp only [Generated.C14.zygoReadValue]; ring
+    intro n; simp only [Generated.C14.zygoReadValue, Model.C14.zygoReadValue]; ring
   rw [e]
   exact quant_error x _ hq
 
@@ -761,7 +761,7 @@ theorem zygo_requantise_exact (r32 : ℚ → ℚ) (wvl : ℚ) (n : ℤ) (hW : r3
   rw [zygo_step_consistent r32 _ wvl hW]
   have e : Generated.C14.zygoReadValue n (r32 (zygoWvlWrite wvl)) 1 1 phaseRes1
       / Generated.C14.zygoReadValue 1 (r32 (zygoWvlWrite wvl)) 1 1 phaseRes1 = (n : ℚ) := by
-    simp only [Generated.C14.zygoReadValue, phaseRes1]
+    simp only [Generated.C14.zygoReadValue, Model.C14.zygoReadValue, phaseRes1]
     push_cast
     field_simp
   rw [e, truncRat_intCast]
@@ -770,7 +770,7 @@ theorem zygo_requantise_exact (r32 : ℚ → ℚ) (wvl : ℚ) (n : ℤ) (hW : r3
 reads every count as the same nanometres as the library's `WVL 1.0` file — over the source's own scaling formula -/
 theorem codev_unit_invariant (n w ssz : ℚ) (hw : w ≠ 0) (hs : ssz ≠ 0) :
     Generated.C14.cvReadValue n w (ssz * w) = Generated.C14.cvReadValue n 1 ssz := by
-  simp only [Generated.C14.cvReadValue]
+  simp only [Generated.C14.cvReadValue, Model.C14.cvReadValue]
   field_simp
 
 example : (fun y : ℚ => y) (zygoWvlWrite (6328 / 10000)) ≠ 0 := by norm_num [zygoWvlWrite]
@@ -802,4 +802,49 @@ theorem codev_preamble_roundtrip (cs : List (List Char))
 
 example : cvPreamble [' ', '!', 'a', '\n', '!', '\n', 'T', ' ', '1', '\n', 'G', '\n', '5', '\n'] = some (['T', ' ', '1'], ['G'], ['5', '\n']) := by decide
 example : cvPreamble ['!', ' ', 'a'] = none := by decide
+
+/-! ## order-free Code V headers; frame selection (session 3, second pass) -/
+
+/-- the keyword scan accepts ANY sequence of keyword groups (a keyword of the table followed by as many values as the table
+says) — in any order, any number of them: acceptance does not depend on the order the writer happens to use -/
+theorem acceptsHeader_groups (table : List (String × Nat)) (gs : List (String × List String))
+    (h : ∀ g ∈ gs, ∃ p, table.find? (fun p => p.1 == g.1) = some p ∧ p.2 = g.2.length)
+    (fuel : Nat) (hf : gs.length ≤ fuel) :
+    acceptsHeader table fuel (gs.flatMap fun g => g.1 :: g.2) = true := by
+  induction gs generalizing fuel with
+  | nil => cases fuel <;> simp [acceptsHeader]
+  | cons g gs ih =>
+    cases fuel with
+    | zero => simp at hf
+    | succ f =>
+      obtain ⟨p, hp, hl⟩ := h g (by simp)
+      simp only [List.flatMap_cons, List.cons_append, acceptsHeader, hp, hl, List.length_append, List.drop_left]
+      simp only [ge_iff_le, Nat.le_add_right, decide_true, Bool.true_and]
+      exact ih (fun x hx => h x (by simp [hx])) f (by simpa using hf)
+
+/-- Code V headers in any keyword order: every header made of keyword groups of the reader's GENERATED table is accepted,
+whatever their order (the writer's order, any permutation of it, other programs' orders); the keyword test of the source
+is on the upper-cased token (the translator only recognises `params[i].upper() == KEY` tests), so case is immaterial too -/
+theorem codev_header_order_free (gs : List (String × List String))
+    (h : ∀ g ∈ gs, cvReaderTokens.find? (fun p => p.1 == g.1) = some (g.1, g.2.length)) :
+    acceptsHeader cvReaderTokens gs.length (gs.flatMap fun g => g.1 :: g.2) = true :=
+  acceptsHeader_groups cvReaderTokens gs (fun g hg => ⟨_, h g hg, rfl⟩) gs.length (Nat.le_refl _)
+
+example : ∀ g ∈ [("NDA", ["-32768"]), ("SSZ", ["2.5"]), ("WVL", ["0.5"]), ("SUR", []), ("GRD", ["3", "2"])],
+    cvReaderTokens.find? (fun p => p.1 == g.1) = some (g.1, g.2.length) := by decide
+
+/-- frame selection over the GENERATED action table: `first` returns frame 0 and `last` frame `ib − 1` of the `ib ≥ 1` frames
+of `px` pixels each (Python index −1), `avg` is the per-pixel mean branch -/
+theorem select_frame_first_last (ib px : Nat) (raw : Array Nat) (hib : 1 ≤ ib) :
+    (zygoFrameSel.lookup "first").map (fun s => selectFrame s ib px raw)
+      = some ((List.range px).map fun i => Float.ofNat (raw.getD (0 * px + i) 0)) ∧
+    (zygoFrameSel.lookup "last").map (fun s => selectFrame s ib px raw)
+      = some ((List.range px).map fun i => Float.ofNat (raw.getD ((ib - 1) * px + i) 0)) ∧
+    zygoFrameSel.lookup "avg" = some none := by
+  have e : zygoFrameSel = modelFrameSel := by decide
+  have h1 : (((ib : Int) + -1).toNat) = ib - 1 := by omega
+  rw [e]
+  refine ⟨?_, ?_, by decide⟩
+  · simp [modelFrameSel, List.lookup, selectFrame]
+  · simp [modelFrameSel, List.lookup, selectFrame, h1]
 end C14
